@@ -1,6 +1,8 @@
 // harness/str_driver.cpp — implementation side of the string cluster (C17): nitro::lang::split/join/replace_all/starts_with
 #include "common.hpp"
 #include <nitro/lang/string.hpp>
+#include <iterator>
+#include <sstream>
 
 static std::string run_case(const std::vector<std::string>& w)
 {
@@ -16,6 +18,16 @@ static std::string run_case(const std::vector<std::string>& w)
         nitro::lang::replace_all(s, unhex(w[1]), unhex(w[2]));
         return "S " + hex(s);
     }
+    if (w.size() == 4 && w[0] == "replacea")
+    {
+        // arguments that are the subject string itself (the model has values, the code has references)
+        std::string s = unhex(w[2]);
+        if (w[1] == "1") nitro::lang::replace_all(s, s, unhex(w[3]));
+        else if (w[1] == "2") nitro::lang::replace_all(s, unhex(w[3]), s);
+        else if (w[1] == "3") nitro::lang::replace_all(s, s, s);
+        else return "BADCASE";
+        return "S " + hex(s);
+    }
     if (w.size() == 3 && w[0] == "starts") return nitro::lang::starts_with(unhex(w[1]), unhex(w[2])) ? "B 1" : "B 0";
     if (w.size() == 3 && w[0] == "join")
     {
@@ -24,6 +36,19 @@ static std::string run_case(const std::vector<std::string>& w)
         auto a = nitro::lang::join(l, unhex(w[1]));
         auto b = nitro::lang::join(l.begin(), l.end(), unhex(w[1]));
         if (a != b) return "S-OVERLOADS-DIFFER " + hex(a) + " " + hex(b);
+        return "S " + hex(a);
+    }
+    if (w.size() == 3 && w[0] == "joinw")
+    {
+        // single-pass iterators: the elements can be read once only
+        auto l = unwire_strs(w[2]);
+        std::string text;
+        for (auto& e : l) { text += e; text += ' '; }
+        std::istringstream in(text);
+        auto a = nitro::lang::join(std::istream_iterator<std::string>(in), std::istream_iterator<std::string>(), unhex(w[1]));
+        std::istringstream in2(text);
+        std::vector<std::string> again{ std::istream_iterator<std::string>(in2), std::istream_iterator<std::string>() };
+        if (again != l) return "BADCASE";
         return "S " + hex(a);
     }
     if (w.size() == 3 && w[0] == "joini")
